@@ -199,11 +199,9 @@ func createSep(c1, c2 cell) string {
 	}
 }
 
-var k = decimal.RequireFromString("1000")
-
 func (r *TextRenderer) numToString(d decimal.Decimal) string {
 	if r.Thousands {
-		d = d.Div(k)
+		d = d.Shift(-3)
 	}
 	return addThousandsSep(d.StringFixed(r.Round))
 }
